@@ -59,6 +59,11 @@ def decl_pairs(tier):
         if base >= 4:
             add("range: hi < lo", base, [field("x", [(3, 1)], T_uint(3))], [field("x", [(1, 3)], T_uint(3))])
             add("range: hi < lo in a list", base, [field("x", [(0, 0), (3, 2)], T_uint(3))], [field("x", [(0, 0), (2, 3)], T_uint(3))])
+            # a reversed range hidden in a list whose other ranges already match the type width
+            add("range: reversed range in a list whose other ranges match the type", base, [field("x", [(0, 1), (3, 2)], T_uint(2))], [field("x", [(0, 1)], T_uint(2), force_list=True)])
+            if base >= 8:
+                add("range: reversed range (hi <= lo-2) in a list", base, [field("x", [(0, 3), (7, 5)], T_uint(4))], [field("x", [(0, 3)], T_uint(4), force_list=True)])
+                add("range: reversed range first in a list", base, [field("x", [(7, 5), (0, 3)], T_uint(4))], [field("x", [(5, 7), (0, 3)], T_uint(7))])
         # ---- arrays: count and stride
         if base >= 4:
             add("array: one element", base, [field("x", [(0, 1)], T_uint(2), array={"k": 1, "stride": None})], [field("x", [(0, 1)], T_uint(2), array={"k": 2, "stride": None})])
@@ -74,6 +79,12 @@ def decl_pairs(tier):
         if base >= 3:
             add("bounds: range ends one past the top", base, [field("x", [(base - 2, base)], T_uint(3))], [field("x", [(base - 3, top)], T_uint(3))])
             add("bounds: list reaches one past the top", base, [field("x", [(0, 0), (base, base)], T_uint(2))], [field("x", [(0, 0), (top, top)], T_uint(2))])
+        if base >= 6:
+            # the out-of-base range is not the last one listed
+            add("bounds: list whose first range lies beyond the top", base, [field("x", [(base, base + 1), (0, 1)], T_uint(4))], [field("x", [(base - 2, top), (0, 1)], T_uint(4))])
+            add("bounds: list whose middle range reaches one past the top", base, [field("x", [(0, 0), (top, base), (2, 2)], T_uint(4))], [field("x", [(0, 0), (base - 2, top), (2, 2)], T_uint(4))])
+            add("bounds: array of lists whose first range overruns", base, [field("x", [(base - 2, base - 2), (0, 0)], T_uint(2), array={"k": 3, "stride": 1})],
+                [field("x", [(base - 3, base - 3), (0, 0)], T_uint(2), array={"k": 3, "stride": 1})])
         if S != base:
             # inside the storage integer but outside the declared base
             add("bounds: field in the storage padding", base, [field("x", [(base, S - 1)], T_uint(S - base))], [field("x", [(0, S - base - 1)], T_uint(S - base))])
@@ -146,6 +157,16 @@ def enum_cases(tier):
         out.append(("2^N variants with a discriminant >= 2^N, exhaustive=false", lit_enum("E", N, "false", vs), None))
         out.append(("2^N variants with a discriminant >= 2^N, exhaustive=conditional", lit_enum("E", N, "conditional", vs), None))
         out.append(("discriminant >= 2^N under exhaustive=conditional", lit_enum("E", N, "conditional", [("A", "0", None), ("Big", "%d" % full, None)][: 2 if N > 0 else 1]), None))
+    for N in (2, 3, 4, 5):
+        full = 1 << N
+        # an oversized discriminant that is not the last / not followed by smaller ones only: every declaration order
+        out.append(("oversized discriminant in second position", lit_enum("E", N, "false", [("A", "0", None), ("B", "%d" % full, None), ("C", "2", None), ("D", "3", None)]),
+                    mk_enum("x", "E", N, [0, full - 1, 2, 3] if N > 2 else [0, 3, 2, 1][:4], exh=None if N > 2 else "true")))
+        out.append(("oversized discriminant first", lit_enum("E", N, "false", [("A", "%d" % full, None), ("B", "0", None), ("C", "1", None)]), mk_enum("x", "E", N, [full - 1, 0, 1])))
+        out.append(("oversized discriminant between ascending runs", lit_enum("E", N, "false", [("A", "1", None), ("B", "%d" % (full + 1), None), ("C", "0", None), ("D", "2", None)]),
+                    mk_enum("x", "E", N, [1, full - 1, 0, 2] if N > 2 else [1, 3, 0, 2], exh=None if N > 2 else "true")))
+    out.append(("oversized discriminant in second position, exhaustive=true", lit_enum("E", 2, "true", [("A", "0", None), ("B", "4", None), ("C", "2", None), ("D", "3", None)]),
+                mk_enum("x", "E", 2, [0, 1, 2, 3])))
     for N in (8, 9, 15, 16, 17, 31, 32, 33, 63):
         full = 1 << N
         out.append(("discriminant 2^N at storage boundary", lit_enum("E", N, "false", [("A", "0", None), ("B", "0x%x" % full, None)]), mk_enum("x", "E", N, [0, full - 1])))
